@@ -49,7 +49,7 @@ CHECKS["C06"] = dict(
 CHECKS["C05"] = dict(
     engine="E4", category="model_checking", design="4/C05",
     technique="bounded-exhaustive enumeration of request contents x CA states against a reference accept/refuse predicate; every request executed by the real CaManager on a forked copy of the state, with before/after comparison",
-    text="Every request of finite menus (all ROA deltas of <=2 / <=3 entries out of 11 additions and 3 removals covering implicit/explicit/invalid max length, unheld, v6, AS0, present with same/new comment, duplicates; ASPA set/delete/provider updates; BGPsec add with valid and corrupted CSR / delete; child add/update with six resource sets) against five CA states (empty, configured, configured-then-shrunk, aggregated, mid-roll): refusal exactly when the property text demands it, refused requests change nothing but one audit record (configuration, published-object set, repository, queue compared), accepted ones are applied as a whole.",
+    text="Every request of finite menus (all ROA deltas of <=2 / <=3 entries out of 11 additions and 3 removals covering implicit/explicit/invalid max length, unheld, v6, AS0, present with same/new comment, duplicates; ASPA set/delete/provider updates; BGPsec add with valid and corrupted CSR / delete; child add/update with six resource sets) against six CA states (empty, configured, configured-then-shrunk, configured and then the customer/router AS taken away, aggregated, mid-roll): refusal exactly when the property text demands it, refused requests change nothing but one audit record (configuration, published-object set, repository, queue compared), accepted ones are applied as a whole.",
     note="Reference predicate written from the property text; cases the text does not decide (duplicates inside a delta, no-op replacements, lenient provider-set updates, update of an existing child to nothing) are only checked for atomicity. Trusted: fork-copy isolation of the state.")
 
 CHECKS["C14"] = dict(
